@@ -44,7 +44,7 @@ META = {
 }
 
 GO_RUN = '^TestVerifX07$'
-QUICK_CREATES = 1500
+QUICK_CREATES = 3500
 ABS = -9
 KEYS = ['rbytes', 'rmsgs', 'rage', 'clean', 'sbytes', 'sage', 'compact', 'cgor', 'apause', 'adis', 'minisr', 'occ', 'enc']
 # MC_ConfigPrec!FV / OV
@@ -307,7 +307,7 @@ def run(rep, tier, seed, replay):
                             'paths_covering_all_transitions': n_all, 'paths_replayed': len(behaviours)}
     lap('stimuli from the graph')
     # 3. all 13 settings at once (seeded)
-    behaviours += full_random(rng, 400 if quick else 4000, 'unit')
+    behaviours += full_random(rng, 600 if quick else 4000, 'unit')
     # 4. live server: TLC-simulated two-stream life cycles + combinations over all settings
     sims = core.tlc_simulate('MC_ConfigPrec.tla', 'Sim_ConfigPrec.cfg', 400 if quick else 2000, 12, seed, timeout=900)
     live = live_from_sims(sims, rng, 10 if quick else 60) + full_random(rng, 4 if quick else 24, 'live')
